@@ -485,6 +485,16 @@ CmdFetch(s) ==
   /\ Log("Fetch", s, <<>>, IF Expunging(s) THEN "OK-EXPUNGEISSUED" ELSE "OK")
   /\ UNCHANGED <<rows, uidNext, flg, used, dead, recd, sel, ro, q, idle, ever>>
 
+(* SEARCH ALL / SEARCH DELETED (or UID SEARCH): answers from the snapshot - one SEARCH line with the matching      *)
+(* sequence numbers (UIDs) in ascending order - then flush without expunge; says EXPUNGEISSUED like FETCH          *)
+CmdSearch(s, key, byuid) ==
+  /\ Ready(s) /\ sel[s] # None /\ key \in {"ALL", "DELETED"}
+  /\ LET hit == {i \in 1..Len(snap[s]) : key = "ALL" \/ "Deleted" \in snap[s][i].f}
+         nums == [i \in 1..Cardinality(hit) |-> IF byuid THEN snap[s][AscSeq(hit)[i]].uid ELSE AscSeq(hit)[i]]
+     IN FinishSel(s, <<>>, "noexp", <<[t |-> "SEARCH", n |-> Len(snap[s]), nums |-> nums]>>, {}, FALSE)
+  /\ Log("Search", s, <<key, byuid>>, IF Expunging(s) THEN "OK-EXPUNGEISSUED" ELSE "OK")
+  /\ UNCHANGED <<rows, uidNext, flg, used, dead, recd, sel, ro, q, idle, ever>>
+
 (* FETCH P (BODY[]) in a read-write selection: \Seen is written straight into the    *)
 (* snapshot and reported in the same FETCH line, then the +FLAGS (\Seen) action runs  *)
 CmdFetchBody(s, P) ==
@@ -674,9 +684,13 @@ ConnSetBoxesRefused(m, B) ==
   /\ Log("ConnSetBoxes", None, <<m, AscBoxes(B)>>, "ERR")
   /\ UNCHANGED <<rows, uidNext, flg, used, dead, recd, sel, ro, snap, res, q, idle, mirror, taint, ever>>
 
+\* (the code walks the flag sets in map order: with two additions or two removals in one update the order of the two
+\* state updates is up to the Go runtime and no replay can steer it - explored with at most one of each)
+OneEach(m, F) == Cardinality(F \ flg[m]) <= 1 /\ Cardinality(flg[m] \ F) <= 1
+
 \* MessageFlagsUpdated: the shared flags of m become exactly F
 ConnSetFlags(m, F) ==
-  /\ m \in used /\ F \subseteq SharedFlags
+  /\ m \in used /\ F \subseteq SharedFlags /\ OneEach(m, F)
   /\ LET fe == FlagEffect(m, F)
      IN /\ flg' = fe.flg
         /\ q' = EnqueueAll(fe.ups)
@@ -686,7 +700,7 @@ ConnSetFlags(m, F) ==
 
 \* MessageUpdated with an unchanged literal: flags, then mailboxes, in one transaction
 ConnUpdateSame(m, B, F) ==
-  /\ m \in used /\ F \subseteq SharedFlags
+  /\ m \in used /\ F \subseteq SharedFlags /\ OneEach(m, F)
   /\ LET fe == FlagEffect(m, F)
          be == BoxEffect(m, B)
      IN /\ be.fits
@@ -925,6 +939,7 @@ FreeOld ==
   \/ On("UidExpunge") /\ \E s \in Cmdrs : \E P \in PSets(Len(snap[s])) : CmdExpunge(s, P, TRUE)
   \/ On("Noop") /\ \E s \in Cmdrs : CmdNoop(s)
   \/ On("Fetch") /\ \E s \in Cmdrs : CmdFetch(s)
+  \/ On("Search") /\ \E s \in Cmdrs, key \in {"ALL", "DELETED"}, byuid \in BOOLEAN : CmdSearch(s, key, byuid)
   \/ On("FetchBody") /\ \E s \in Cmdrs : \E P \in PSets(Len(snap[s])) : CmdFetchBody(s, P)
   \/ On("Copy") /\ \E s \in Cmdrs, d \in Boxes : \E P \in PSets(Len(snap[s])) : CmdCopy(s, P, d)
   \/ On("Move") /\ \E s \in Cmdrs, d \in Boxes : \E P \in PSets(Len(snap[s])) : CmdMove(s, P, d)
@@ -991,7 +1006,7 @@ Scripted ==
 \* Simulation draws the KIND of the next action first (one successor per kind, so kinds are equally likely
 \* whatever the number of argument variants), then one action of that kind - or nothing, if the draw is skipped.
 KindActs == [sel |-> {"Select", "Examine", "Close", "Unselect"}, append |-> {"Append"}, store |-> {"Store"},
-             fetch |-> {"Fetch", "FetchBody", "Refused"}, expunge |-> {"Expunge", "UidExpunge"}, noop |-> {"Noop"},
+             fetch |-> {"Fetch", "FetchBody", "Refused", "Search"}, expunge |-> {"Expunge", "UidExpunge"}, noop |-> {"Noop"},
              copymove |-> {"Copy", "Move"}, idle |-> {"IdleBegin", "IdleDone"},
              deliver |-> {"Deliver"}, deliver2 |-> {"Deliver"}, deliver3 |-> {"Deliver"},
              conn |-> {"ConnSetBoxes", "ConnSetFlags", "ConnDelete", "ConnUpdateSame", "ConnBad", "ConnCreateDup", "ConnCreateKnown", "ConnIDChanged"},
@@ -1112,7 +1127,7 @@ EverBelowNext == \A b \in Boxes : \A p \in ever[b] : p[1] < uidNext[b]
 RowsAreEver == \A b \in Boxes : \A i \in 1..Len(rows[b]) : <<rows[b][i].uid, rows[b][i].m>> \in ever[b]
 
 \* C05
-NoExpungeKinds == {"Fetch", "FetchBody", "Store", "Copy", "Refused"}
+NoExpungeKinds == {"Fetch", "FetchBody", "Store", "Copy", "Refused", "Search"}
 NoExpungeDuringFetchStore ==
   [][last'.act \in NoExpungeKinds =>
        \A s \in Sessions : \A i \in 1..Len(wire'[s]) : wire'[s][i].t # "EXPUNGE"]_vars
